@@ -106,8 +106,8 @@ class AFS:
         self.touch(path)
         return path
 
-    def add_token(self, path, tok):
-        return self.add_content(path, ABuf.of([("T", tok, 0, None)]))
+    def add_token(self, path, tok, size=None):
+        return self.add_content(path, ABuf.of([("T", tok, 0, size)]))
 
     # ---- resolution ------------------------------------------------------
     def resolve(self, p):
@@ -593,6 +593,7 @@ class AWFile:
         self.fs, self.path, self.mode, self.closed = fs, path, mode, False
         self.name = path
         self.unbuffered = unbuffered
+        self.pos = 0 if mode in ("r+",) else None      # overwrite-in-place position (None = append semantics)
 
     def write(self, data):
         if self.closed:
@@ -623,11 +624,38 @@ class AWFile:
                 raise OSError(errno.ENOSPC, "No space left on device", self.path)
             self.fs.log.append(("CRASH-partial", self.path))
             raise Crash("crash during write to %s" % self.path)
+        if self.pos is not None:
+            # r+ : overwrite from the current position, whatever lies beyond the written bytes stays
+            n = data.size()
+            head = node.content[:self.pos]
+            tail = node.content[self.pos + n:]
+            node.content.segs = head.segs + data.segs + tail.segs
+            self.pos = self.pos + n
+            return n
         node.content.extend(data)
         try:
             return data.size()
         except Unsupported:
             return 1
+
+    def truncate(self, size=None):
+        node = self.fs.files.get(self.path)
+        self.fs._op("truncate", self.path)
+        if node is not None:
+            at = self.pos if size is None else size
+            if at is None:
+                return
+            node.content.segs = node.content[:at].segs
+
+    def seek(self, p, whence=0):
+        if self.pos is None:
+            raise Unsupported("seek on an append-mode file")
+        if whence == 2:
+            p = self.fs.files[self.path].content.size() + p
+        elif whence == 1:
+            p = self.pos + p
+        self.pos = p
+        return p
 
     def flush(self):
         pass
@@ -636,7 +664,9 @@ class AWFile:
         return 3
 
     def tell(self):
-        raise Unsupported("tell on write file")
+        if self.pos is None:
+            raise Unsupported("tell on write file")
+        return self.pos
 
     def close(self):
         self.closed = True
